@@ -36,6 +36,11 @@ pub fn boundary_inputs(tier: Tier) -> Vec<LzInput> {
         ])));
         v.push(LzInput::Spec(BytesSpec::Periodic { period: d, len: d + 40, seed: 99 + d as u64, alphabet: 0 }));
     }
+    // lengths around 64 KiB (bits 16..23 of the 24-bit length fields): nearly incompressible and run + incompressible tail
+    v.push(LzInput::Spec(BytesSpec::Random { len: 60_000, seed: 0x60000 }));
+    v.push(LzInput::Spec(BytesSpec::Random { len: 65_535, seed: 0x65535 }));
+    v.push(LzInput::Spec(BytesSpec::Concat(vec![BytesSpec::Run { byte: 0, len: 65_500 }, BytesSpec::Random { len: 35, seed: 35 }])));
+    v.push(LzInput::Spec(BytesSpec::Concat(vec![BytesSpec::Run { byte: 0, len: 131_000 }, BytesSpec::Random { len: 60, seed: 60 }])));
     // the statement's size limit: just below 16 MiB (a constant run is cheap to compress)
     let _ = tier;
     v.push(LzInput::Spec(BytesSpec::Run { byte: 0x5A, len: 0xFF_FFFF }));
